@@ -88,6 +88,20 @@ auto uninitialized_range_construct(Range&& range, TargetType* address)
     {
         return detail::memcpy(std::data(range), reinterpret_cast<std::byte*>(address), std::size(range));
     }
+    else if constexpr (!IgnoreAliasing && !std::is_lvalue_reference_v<Range> &&
+                       !std::is_trivially_copyable_v<TargetType>)
+    {
+        // Relocation within the same block: source and target may overlap. Move each item through a temporary and
+        // end the lifetime of the source item before its storage is reused.
+        for (auto&& item : range)
+        {
+            TargetType temporary(std::move(item));
+            std::destroy_at(std::addressof(item));
+            ::new (static_cast<void*>(address)) TargetType(std::move(temporary));
+            ++address;
+        }
+        return reinterpret_cast<std::byte*>(address);
+    }
     else
     {
         if constexpr (!std::is_lvalue_reference_v<Range>)
